@@ -101,6 +101,9 @@ def _core_programs():
         _P([dict(c, act=False), dict(c)], 'gaplin'),
         _P([dict(c), dict(c, bias=False)], 'gaplin'),
         _P([dict(c, s=2, p=0, bn=True), {'op': 'conv', 'dw': True, 's': 2}], 'linlin'),
+        # a Dropout between integer layers (mode-dependent module shared with the fake-quantized network)
+        _P([dict(c), {'op': 'dropout'}, dict(c)], 'flatlin'),
+        _P([dict(c, bn=True), {'op': 'pool'}, {'op': 'dropout'}], 'linlin'),
         # padding modes other than zeros
         _P([dict(c, pm='reflect')], 'flatlin'),
         _P([dict(c, pm='circular'), {'op': 'conv', 'dw': True, 'pm': 'replicate'}], 'gaplin'),
@@ -131,7 +134,7 @@ def _hand_programs():
 
 
 def _sequential(p):
-    return all(s['op'] in ('conv', 'pool', 'relu') for s in p['stages'])
+    return all(s['op'] in ('conv', 'pool', 'relu', 'dropout') for s in p['stages'])
 
 
 def _bn_on_single_pixel(p):
@@ -141,7 +144,7 @@ def _bn_on_single_pixel(p):
     for s in p['stages']:
         if s['op'] == 'pool':
             size //= 2
-        elif s['op'] == 'relu':
+        elif s['op'] in ('relu', 'dropout'):
             continue
         else:
             k = s.get('k', 3)
@@ -664,6 +667,9 @@ def run_config(exp, x, opt, res, add, stats):
             inq = m.out_quantizer
     # --- the integer network
     victim = copy.deepcopy(exp)
+    # the model handed to integerize_arch is in TRAINING mode (a fake-quantized model straight from QAT, nobody called .eval()), and
+    # the integer network is used as returned: it must be a deterministic inference network whatever mode its input was in
+    victim.train()
     im = None
     try:
         with torch.no_grad():
